@@ -926,3 +926,164 @@ Proof.
   step_cases Hs; cbn in Hin;
     repeat (destruct Hin as [Hin|Hin]; [subst e; reflexivity|]); contradiction.
 Qed.
+
+
+(* ---------- C14: a writer completes once the handles are released - existence form ---------- *)
+(* programs in which every handle that is taken is later released by the same thread, and no thread
+   calls modify while it holds a handle (it would wait for itself for ever): a decidable walk over
+   the slot occupancy *)
+Definition isS {A} (o : option A) : bool := match o with Some _ => true | None => false end.
+Definition allfree (oc : list bool) : bool := forallb negb oc.
+Fixpoint wf_run (oc : list bool) (p : list op) : bool :=
+  match p with
+  | [] => allfree oc
+  | Modify _ :: r => allfree oc && wf_run oc r
+  | LockShared _ s :: r => match nth_error oc s with Some false => wf_run (upd oc s true) r | _ => wf_run oc r end
+  | ReadHandle _ :: r => wf_run oc r
+  | Release s :: r => match nth_error oc s with Some true => wf_run (upd oc s false) r | _ => wf_run oc r end
+  end.
+Definition releases_all (ns : nat) (progs : list (list op)) : bool := forallb (wf_run (repeat false ns)) progs.
+
+(* the same for a thread in the middle of its program *)
+Definition wfl (l : loc) : Prop :=
+  let oc := map isS (slots l) in
+  match at_ l with
+  | Idle | H_rb | H_re => wf_run oc (prog l) = true
+  | R_ldc | R_inc | R_ldr => wf_run (upd oc (sl l) true) (prog l) = true
+  | L_dec => wf_run (upd oc (sl l) false) (prog l) = true
+  | _ => allfree oc = true /\ wf_run oc (prog l) = true
+  end.
+
+Lemma map_upd {A B} (f : A -> B) (l : list A) i x : map f (upd l i x) = upd (map f l) i (f x).
+Proof. revert i; induction l as [|a r IH]; destruct i; cbn; auto. f_equal. apply IH. Qed.
+
+Lemma wfl_step t c g l g' l' es : tstep t c g l = Some (g', l', es) -> lok l -> wfl l -> wfl l'.
+Proof.
+  intros Hs Hk Hw. destruct l as [pr p sls s rcn f lr lc tm go].
+  step_cases Hs; unfold wfl in *; cbn [at_ prog slots sl set_at set_tmp set_slots] in *;
+    rewrite ?map_upd; cbn [isS]; try (cbn [wf_run] in Hw); try tauto.
+  all: try (apply andb_true_iff in Hw; tauto).
+  all: try (rewrite nth_error_map in Hw; match goal with H : nth_error _ _ = _ |- _ => rewrite H in Hw end; cbn in Hw; exact Hw).
+  all: try (destruct ph; tauto).
+  exfalso. unfold lok, cur_hnd in *. cbn in *. destruct Hk as [h Hk]. rewrite Hk in Heqo. discriminate.
+Qed.
+
+Lemma map_repeat' {A B} (f : A -> B) x n : map f (repeat x n) = repeat (f x) n.
+Proof. induction n; cbn; congruence. Qed.
+
+Definition Inv2 (g : glob) (ls : list loc) : Prop := Inv g ls /\ forall u l, nth_error ls u = Some l -> wfl l.
+Lemma Inv2_step : forall g ls t c l g' l' es,
+  Inv2 g ls -> nth_error ls t = Some l -> tstep t c g l = Some (g', l', es) -> Inv2 g' (upd ls t l').
+Proof.
+  intros g ls t c l g' l' es [HI HW] Hl Hs. split; [eapply Inv_step; eauto|].
+  intros u lu Hu. apply nth_upd in Hu. destruct Hu as [(<- & -> & _)|(Hne & Hu)]; [|apply (HW _ _ Hu)].
+  eapply wfl_step; eauto. apply (I_loc _ _ HI _ _ Hl).
+Qed.
+Lemma R_inv2 ns pl progs s : R ns pl progs s -> releases_all ns progs = true -> Inv2 (gl s) (thr s).
+Proof.
+  intros HR Hwf. eapply reachable_inv; [apply Inv2_step| |exact HR].
+  split; [apply Inv_init|]. cbn. intros u l Hu. rewrite nth_error_map in Hu.
+  destruct (nth_error progs u) as [p|] eqn:Ep; inversion Hu; subst. unfold wfl, init_loc. cbn.
+  rewrite map_repeat'. cbn. unfold releases_all in Hwf. rewrite forallb_forall in Hwf.
+  apply Hwf. apply (nth_error_In _ _ Ep).
+Qed.
+
+Lemma forallb_false_ex {A} (f : A -> bool) (l : list A) : forallb f l = false -> exists x, In x l /\ f x = false.
+Proof.
+  induction l as [|a r IH]; cbn; intros H; [discriminate|].
+  destruct (f a) eqn:E; [destruct (IH H) as [x [Hx Hf]]; exists x; auto|exists a; auto].
+Qed.
+Lemma allfree_no_handle (sls : list (option hnd)) (h : hnd) : allfree (map isS sls) = true -> ~ In (Some h) sls.
+Proof.
+  unfold allfree. rewrite forallb_forall. intros H Hin.
+  specialize (H true (in_map isS _ _ Hin)). cbn in H. discriminate.
+Qed.
+
+(* in every reachable, unfinished state of such programs some step that is not a drain retry is enabled *)
+Lemma progress_step ns pl progs s :
+  R ns pl progs s -> releases_all ns progs = true -> all_fin glob loc fin s = false ->
+  exists t c l r, nth_error (thr s) t = Some l /\ tstep t c (gl s) l = Some r /\ is_retry (gl s) l = false.
+Proof.
+  intros HR Hwf Hnf. destruct (R_inv2 _ _ _ _ HR Hwf) as [HI HW].
+  destruct (existsb (fun l => reader_pc (at_ l)) (thr s)) eqn:Erd.
+  - (* a thread inside a reader operation: wait-free *)
+    apply existsb_exists in Erd. destruct Erd as [l [Hin Hp]]. apply In_nth_error in Hin. destruct Hin as [t Hl].
+    destruct (read_wait_free t 0%nat (gl s) l Hp) as [r Hr]. exists t, 0%nat, l, r. repeat split; auto.
+    unfold is_retry. destruct (at_ l); try discriminate; reflexivity.
+  - assert (Hnr : forall u lu, nth_error (thr s) u = Some lu -> reader_pc (at_ lu) = false).
+    { intros u lu Hu. destruct (reader_pc (at_ lu)) eqn:E; [|reflexivity].
+      assert (existsb (fun l => reader_pc (at_ l)) (thr s) = true); [|congruence].
+      apply existsb_exists. exists lu. split; [apply (nth_error_In _ _ Hu)|exact E]. }
+    assert (Hidle : forall u lu, nth_error (thr s) u = Some lu -> at_ lu = Idle -> prog lu <> [] ->
+                    exists t c l r, nth_error (thr s) t = Some l /\ tstep t c (gl s) l = Some r /\ is_retry (gl s) l = false).
+    { intros u lu Hu Hp Hpr. exists u, 0%nat, lu.
+      destruct lu as [pr p sls sl0 rcn f lr lc tm go]. cbn in *. subst p. destruct pr as [|o r0]; [congruence|].
+      unfold tstep. cbn [at_ prog].
+      destruct o; cbn; repeat match goal with |- context [match ?x with _ => _ end] => destruct x end;
+        eexists; (split; [exact Hu|split; reflexivity]). }
+    destruct (mtx (gl s)) as [w|] eqn:Hm.
+    + (* the owner of the write mutex moves, unless it spins on a handle whose holder can move *)
+      destruct (I_held _ _ HI _ Hm) as [lw [Hw Hh]].
+      destruct (holder_enabled _ _ _ _ w 0%nat HR Hm) as [lw' [r [Hw' Hr]]].
+      assert (lw' = lw) by congruence. subst lw'.
+      destruct (is_retry (gl s) lw) eqn:Ert; [|exists w, 0%nat, lw, r; auto].
+      destruct (retry_means_registered _ _ _ _ _ _ HR Hw Ert) as (k & _ & _ & u & lu & Hu & [[h [Hhh _]]|[Hp _]]).
+      * pose proof (HW _ _ Hu) as Hwl. pose proof (Hnr _ _ Hu) as Hru. unfold wfl in Hwl. unfold holds_handle in Hhh.
+        assert (Hocc : allfree (map isS (slots lu)) = false).
+        { destruct (allfree (map isS (slots lu))) eqn:E; [|reflexivity]. destruct (allfree_no_handle _ h E Hhh). }
+        apply (Hidle u lu Hu).
+        -- destruct (at_ lu); try discriminate; try reflexivity; destruct Hwl; congruence.
+        -- intros Hpr. destruct (at_ lu); try discriminate; try (destruct Hwl; congruence).
+           rewrite Hpr in Hwl. cbn in Hwl. congruence.
+      * pose proof (Hnr _ _ Hu) as Hru. rewrite Hp in Hru. discriminate.
+    + (* mutex free: an unfinished thread is idle with work left, or about to lock *)
+      unfold all_fin in Hnf. apply forallb_false_ex in Hnf. destruct Hnf as [l [Hin Hf]].
+      apply In_nth_error in Hin. destruct Hin as [t Hl].
+      pose proof (Hnr _ _ Hl) as Hrl.
+      destruct (holds (at_ l)) eqn:Hh; [pose proof (I_owner _ _ HI _ _ Hl Hh); congruence|].
+      destruct (at_ l) eqn:Hp; try discriminate.
+      * apply (Hidle t l Hl Hp). intros Hpr. unfold fin in Hf. rewrite Hp, Hpr in Hf. discriminate.
+      * destruct (lock_enabled_when_free t 0%nat (gl s) l Hp Hm) as [r Hr]. exists t, 0%nat, l, r. repeat split; auto.
+        unfold is_retry. rewrite Hp. reflexivity.
+Qed.
+
+Lemma mu_step_dec (s : sysR) t c l g' l' es :
+  nth_error (thr s) t = Some l -> tstep t c (gl s) l = Some (g', l', es) -> is_retry (gl s) l = false ->
+  stepR s (t, c) = Sys g' (upd (thr s) t l') /\ (mu (Sys g' (upd (thr s) t l')) < mu s)%nat.
+Proof.
+  intros Hl Hs Hr. split.
+  - unfold step, sys_step. rewrite Hl, Hs. reflexivity.
+  - pose proof (wloc_step _ _ _ _ _ _ _ Hs) as Hw. rewrite Hr in Hw.
+    pose proof (sum_upd wloc (thr s) t l l' Hl) as E. unfold mu. cbn [thr]. lia.
+Qed.
+
+(* from EVERY reachable state of programs that release every handle they take (and do not call modify
+   while holding one) some schedule of at most mu(s) steps finishes every thread: readers and
+   writers cannot deadlock or livelock each other *)
+Lemma eventually_finishes ns pl progs s :
+  R ns pl progs s -> releases_all ns progs = true ->
+  exists sc, all_fin glob loc fin (runR s sc) = true /\ (length sc <= mu s)%nat.
+Proof.
+  intros HR Hwf. remember (mu s) as n eqn:En. assert (Hle : (mu s <= n)%nat) by lia. clear En.
+  revert s HR Hle. induction n as [|n IH]; intros s HR Hle.
+  - exists []. split; [|cbn; lia]. cbn.
+    destruct (all_fin glob loc fin s) eqn:Ef; [reflexivity|exfalso].
+    destruct (progress_step _ _ _ _ HR Hwf Ef) as (t & c & l & [[g' l'] es] & Hl & Hs & Hr).
+    destruct (mu_step_dec s t c l g' l' es Hl Hs Hr) as [_ Hd]. lia.
+  - destruct (all_fin glob loc fin s) eqn:Ef; [exists []; split; [exact Ef|cbn; lia]|].
+    destruct (progress_step _ _ _ _ HR Hwf Ef) as (t & c & l & [[g' l'] es] & Hl & Hs & Hr).
+    destruct (mu_step_dec s t c l g' l' es Hl Hs Hr) as [Est Hd].
+    destruct (IH (stepR s (t, c))) as [sc [Hfin Hlen]].
+    + apply R_step. exact HR.
+    + rewrite Est. lia.
+    + exists ((t, c) :: sc). split; [exact Hfin|]. cbn [length]. lia.
+Qed.
+
+(* non-vacuity of the hypothesis: a writer that also reads, a reader with two nested handles that also
+   writes afterwards; and the two ways to violate it *)
+Lemma releases_all_example :
+  releases_all 2 [[Modify 3; LockShared 1 0; ReadHandle 0; Release 0];
+                  [LockShared 1 0; LockShared 2 1; ReadHandle 1; Release 0; Release 1; Modify 4]] = true /\
+  releases_all 1 [[LockShared 1 0; Modify 3; Release 0]] = false /\
+  releases_all 1 [[LockShared 1 0; ReadHandle 0]] = false.
+Proof. repeat split; reflexivity. Qed.
